@@ -116,6 +116,25 @@ impl<'a> RuleCtx<'a> {
         }
         let r = self.rng.usize_below(p.rels.len());
         let rel = &p.rels[r];
+        // shape family "result and a LATER argument bound, an earlier argument free" for functions
+        // and constructors with >= 2 arguments (`if t = Node(l, r)` with t and r known): the query
+        // needs an index whose column order is not the natural one behind the result column
+        if rel.is_func() && rel.args.len() >= 2 && self.rng.chance(1, 4) {
+            let res = rel.result.unwrap();
+            let last = *rel.args.last().unwrap();
+            let res_bound = self.bound_of(res);
+            let last_bound = self.bound_of(last);
+            if !res_bound.is_empty() && !last_bound.is_empty() {
+                let v = Term::Var(self.rng.pick(&res_bound).clone());
+                let lastv = Term::Var(self.rng.pick(&last_bound).clone());
+                let mut terms: Vec<Term> = Vec::new();
+                for s in rel.args[..rel.args.len() - 1].to_vec() {
+                    terms.push(Term::Var(self.fresh_var(s)));
+                }
+                terms.push(lastv);
+                return Some(Atom::Eq(v, Term::App(r, terms)));
+            }
+        }
         let mut args: Vec<(Term, usize)> = Vec::new();
         for s in rel.args.clone() {
             let t = self.premise_arg(s, 0, &args);
@@ -635,6 +654,80 @@ pub fn gen_program(rng: &mut Rng, knobs: &GenKnobs) -> Program {
         if let Some(r) = gen_rule(&p, rng, knobs, name) {
             p.rules.push(r);
         }
+    }
+    // shape family "a constructor destructured with its result and a LATER argument known, an
+    // earlier one free", next to a query that knows the result only: index selection then serves
+    // both with an index on the constructor graph that starts with the result column and lists the
+    // arguments in another than their natural order (`ka_*_order_2_1_0`)
+    let wide_ctors: Vec<usize> = (0..p.rels.len()).filter(|r| matches!(p.rels[*r].kind, RelKind::Ctor(_)) && p.rels[*r].args.len() >= 2).collect();
+    if !wide_ctors.is_empty() && rng.chance(2, 3) {
+        let c = *rng.pick(&wide_ctors);
+        let rel = p.rels[c].clone();
+        let es = rel.result.unwrap();
+        let n = rel.args.len();
+        let last = rel.args[n - 1];
+        let v = |s: &str| Term::Var(s.to_string());
+        // the conclusion: a predicate whose columns can be filled from (t: enum, s: last, l: first), else t = t
+        let conclusion = |bound: &[(&str, usize)]| -> Stmt {
+            for (ri, r) in p.rels.iter().enumerate() {
+                if r.kind == RelKind::Pred && !r.args.is_empty() {
+                    let args: Option<Vec<Term>> = r.args.iter().map(|s| bound.iter().find(|(_, bs)| bs == s).map(|(n, _)| v(n))).collect();
+                    if let Some(args) = args {
+                        return Stmt::Then(Atom::Pred(ri, args));
+                    }
+                }
+            }
+            Stmt::Then(Atom::Eq(v("t"), v("t")))
+        };
+        if n == 2 {
+            let bound: Vec<(&str, usize)> = vec![("t", es), ("s", last), ("l", rel.args[0])];
+            let stmts = vec![
+                Stmt::If(Atom::SortOf("t".into(), es)),
+                Stmt::If(Atom::SortOf("s".into(), last)),
+                Stmt::If(Atom::Eq(v("t"), Term::App(c, vec![v("l"), v("s")]))),
+                Stmt::Then(Atom::Eq(v("l"), v("l"))),
+                conclusion(&bound),
+            ];
+            p.rules.push(Rule { name: Some("dxa".into()), stmts });
+            let args2: Vec<Term> = (0..n).map(|i| v(["a", "b", "c"][i])).collect();
+            p.rules.push(Rule {
+                name: Some("dxb".into()),
+                stmts: vec![
+                    Stmt::If(Atom::SortOf("t".into(), es)),
+                    Stmt::If(Atom::Eq(v("t"), Term::App(c, args2))),
+                    Stmt::Then(Atom::Eq(v("a"), v("a"))),
+                    Stmt::Then(Atom::Eq(v("b"), v("b"))),
+                ],
+            });
+        }
+    }
+    // shape family "a relation of arity >= 3 that re-derives its own rows (symmetry in two columns
+    // of one sort) and is looked up by its LAST column only": the lookup makes index selection pick
+    // a cyclic column order (2_0_1) as the primary index, and the symmetry rule keeps presenting
+    // rows that are already present -- the presence test of insert_ decides whether the close loop
+    // ever comes to rest
+    let sym: Vec<usize> = (0..p.rels.len())
+        .filter(|r| p.rels[*r].kind == RelKind::Pred && p.rels[*r].args.len() == 3 && p.rels[*r].args[0] == p.rels[*r].args[1])
+        .collect();
+    if !sym.is_empty() && rng.chance(1, 2) {
+        let r = *rng.pick(&sym);
+        let last = p.rels[r].args[2];
+        let v = |s: &str| Term::Var(s.to_string());
+        p.rules.push(Rule {
+            name: Some("sya".into()),
+            stmts: vec![
+                Stmt::If(Atom::Pred(r, vec![v("x"), v("y"), v("z")])),
+                Stmt::Then(Atom::Pred(r, vec![v("y"), v("x"), v("z")])),
+            ],
+        });
+        p.rules.push(Rule {
+            name: Some("syb".into()),
+            stmts: vec![
+                Stmt::If(Atom::SortOf("z".into(), last)),
+                Stmt::If(Atom::Pred(r, vec![v("a"), Term::Wild, v("z")])),
+                Stmt::Then(Atom::Eq(v("a"), v("a"))),
+            ],
+        });
     }
     p
 }
